@@ -21,7 +21,7 @@ RS_protocol ==   \* C11: global / private / global+private / plain rules over tw
                 R(1, TRUE,  FALSE, 0, C("FS", 8, 0)),
                 R(1, FALSE, TRUE,  0, C("T", 0, 0)),
                 R(2, TRUE,  TRUE,  2, C("M", 0, 0)),
-                R(2, FALSE, FALSE, 0, C("Ref", 3, 0)),
+                R(2, FALSE, FALSE, 0, C("Ref", 4, 0)),          \* (a rule can only name rules of its own namespace)
                 R(2, FALSE, FALSE, 0, C("Undef", 0, 0)) >>,
    imports |-> <<1, 2, 1>>]
 
@@ -31,7 +31,7 @@ RS_history ==    \* C10: everything that could leak from one scan into the next
                 R(1, FALSE, FALSE, 0, C("PeSec", 0, 0)),
                 R(1, FALSE, FALSE, 0, C("FS", 8, 0)),
                 R(2, TRUE,  FALSE, 1, C("M", 0, 0)),
-                R(2, FALSE, FALSE, 0, C("NRef", 1, 0)) >>,
+                R(2, FALSE, FALSE, 0, C("NRef", 5, 0)) >>,       \* names the global rule of its own namespace
    imports |-> <<2>>]
 
 RS_resume ==     \* C13: block partitions and not-ready answers
